@@ -364,9 +364,51 @@ pub fn judge_builder(trace: &BuilderTrace, mut stats: Option<&mut Stats>) -> Opt
     let mut last_extent: usize = 0;
     let mut evals = 0u64;
     let mut classes_seen: Vec<&'static str> = Vec::new();
+    // Reference results computed BEFORE the history and in reverse order, each with its own fresh
+    // builder: if the code under test ever kept state outside the builder (a process-wide or
+    // thread-local cache), a fresh builder consulted right after the reused one would share that
+    // state and agree with it; this earlier, differently ordered pass would not.
+    let n_pre = trace.ops.len().min(64);
+    let mut want_pre: Vec<Option<Outcome>> = vec![None; trace.ops.len()];
+    for i in (0..n_pre).rev() {
+        let op = &trace.ops[i];
+        let msg = op_message(op);
+        let mut fresh = MessageBuilder::new();
+        let (w, _) = run_op(&mut fresh, op, &msg);
+        want_pre[i] = Some(w);
+    }
     for (i, op) in trace.ops.iter().enumerate() {
         let msg = op_message(op);
         let (got, puts) = run_op(&mut long, op, &msg);
+        if let Some(Some(w)) = want_pre.get(i) {
+            evals += 1;
+            let same = match (&got, w) {
+                (Outcome::Panic(_), Outcome::Panic(_)) => true,
+                (a, b) => a == b,
+            };
+            if !same && got != Outcome::Skip {
+                return Some(Violation::new(
+                    "C12",
+                    if is_generated(op) { "C12.g" } else if matches!((&got, w), (Outcome::Frame(_), Outcome::Frame(_))) { "C12.a" } else { "C12.b" },
+                    format!(
+                        "op #{} {}: reused builder (history: {}) gives {} but a fresh builder asked BEFORE this history started gave {}",
+                        i,
+                        op_brief(op),
+                        trace.ops[..i].iter().rev().take(3).map(op_brief).collect::<Vec<_>>().join(" <- "),
+                        match &got {
+                            Outcome::Frame(f) => format!("frame [{}..] ({} bytes)", hex(&f[..f.len().min(12)]), f.len()),
+                            Outcome::Error(e) | Outcome::Panic(e) => e.clone(),
+                            Outcome::Skip => "skip".into(),
+                        },
+                        match w {
+                            Outcome::Frame(f) => format!("frame [{}..] ({} bytes)", hex(&f[..f.len().min(12)]), f.len()),
+                            Outcome::Error(e) | Outcome::Panic(e) => e.clone(),
+                            Outcome::Skip => "skip".into(),
+                        }
+                    ),
+                ));
+            }
+        }
         let mut outcome_class: u64 = match &got {
             Outcome::Frame(_) => 1,
             Outcome::Error(_) => 2,
